@@ -115,7 +115,7 @@ PROPS["C09"] = dict(
                 "canonicalisation; the regeneration pipeline (byte-identical to the checked-in files on the unchanged tree)."),
     needs=["corpus"],
     rule=("history test: one execution = one corpus type, drawn initial contents and a drawn history over {mutate, Size x3, Marshal x4 flavours, Unmarshal, Reset, Clone}; "
-          "non-trivial = at least one judged Marshal happened while the size cache was warm; coop test: one execution = one populated message shared by 2..N clients with drawn "
+          "non-trivial = at least one judged Marshal came after at least one earlier mutation or marshalling operation on the same object; coop test: one execution = one populated message shared by 2..N clients with drawn "
           "scripts and schedule; non-trivial = at least one context switch and two judged observations; distinct = hash of type, contents, steps/scripts and schedule"),
     real=["regenerated Size/Marshal/MarshalTo/Unmarshal of all example types", "csproto.Size/Marshal/Unmarshal/Clone/Reset", "gogo/protobuf and protobuf-go Size/Marshal", "goroutines, atomics, race detector"],
     model=["choice of which goroutine runs", "fresh deep copy built field by field through protoreflect (oracle)"],
